@@ -215,10 +215,13 @@ def run_argon(job):
         s.cmd("ksf_new", id="out16", param={"m": 64, "t": 1, "p": 1, "out": 16})
         s.cmd("ksf_new", id="out2Nh", param={"m": 64, "t": 1, "p": 1, "out": 2 * nh})
         unusable = ("out16", "out2Nh")
+        # memory above the crate's default (19 MiB): a valid, more expensive instance
+        s.cmd("ksf_new", id="mem24", param={"m": 24 * 1024, "t": 1, "p": 1})
+        s.cmd("ksf_new", id="mem24b", param={"m": 24 * 1024, "t": 1, "p": 1})
         key = {None: "default", "def": "default", "cheapA": "A", "cheapA2": "A", "cheapB": "B", "cheapC": "C", "lanes2": "L2", "algI": "I", "algD": "D",
-               "ver10": "V10", "secret": "S", "secret2": "S", "outNh": "A", "out16": "unusable-16", "out2Nh": "unusable-2Nh"}
-        regm = [None, "def", "cheapA", "cheapB", "secret"] if tier == "quick" else [None, "def", "cheapA", "cheapB", "cheapC", "lanes2", "algI", "ver10", "secret"]
-        logm = [None, "def", "cheapA", "cheapA2", "cheapB", "cheapC", "lanes2", "algI", "algD", "ver10", "secret", "secret2", "outNh", "out16", "out2Nh"]
+               "ver10": "V10", "secret": "S", "secret2": "S", "outNh": "A", "out16": "unusable-16", "out2Nh": "unusable-2Nh", "mem24": "M24", "mem24b": "M24"}
+        regm = [None, "def", "cheapA", "cheapB", "secret", "mem24"] if tier == "quick" else [None, "def", "cheapA", "cheapB", "cheapC", "lanes2", "algI", "ver10", "secret", "mem24"]
+        logm = [None, "def", "cheapA", "cheapA2", "cheapB", "cheapC", "lanes2", "algI", "algD", "ver10", "secret", "secret2", "outNh", "out16", "out2Nh", "mem24b"]
         # registration with an unusable instance: an error value (KsfError), no upload
         for um in unusable:
             rng = s.rng("r", proto.H("c15u", su, job["seed"], um))
